@@ -1182,6 +1182,12 @@ class Interp:
                 return T.mk_tuple([k, T.mk_sub(args[0], k)]), idx
             if fn == 'zip':
                 return T.mk_tuple([T.mk_sub(a, idx) for a in args]), idx
+        if at is not None and at.kind == 'sub':
+            sl = at.args[1].single_atom()
+            if sl is not None and sl.kind == 'slice' and T._isnone(sl.args[2]) and not T._isnone(sl.args[0]) and \
+                    T.is_nonneg(sl.args[0]):
+                # for x in X[a:]  /  X[a:b]: item i is X[a + i]
+                return T.mk_sub(at.args[0], sl.args[0] + idx), idx
         return Term.of(Atom('elem', it, lid)), idx
 
     def _list_builder(self, loop, name, info, init, fr):
